@@ -44,7 +44,8 @@ def grad_writer_sites(index):
 
 
 def check(index, ctx):
-    ctx.rule("R0", "every non-empty returning path of backward/mtl_backward writes the .grad of each requested collection (created when absent, added to otherwise)")
+    ctx.rule("R0", "every non-empty returning path of backward/mtl_backward writes the .grad of each requested collection (created when absent, added to otherwise); "
+             "requested collections given as one-shot iterables are materialised before any other traversal")
     ctx.rule("R1", "who may write .grad: every syntactic writer of an attribute named grad in the package is reached by the abstract runs of backward/mtl_backward only with targets "
              "in the requested collections (inputs / task parameters / shared parameters)")
     ctx.rule("R2", "no other autograd side effect: Tensor.backward / torch.autograd.backward / retain_grad / requires_grad_ / register_hook are never called in autojac")
@@ -146,6 +147,10 @@ def check(index, ctx):
                     ctx.violated("R2", f"{fi.short}: {norm_text(n)[:80]}", f"call of `{full}` in autojac", fi.loc(n))
     ctx.call_sites += n_calls
     ctx.ok("R2", "autojac: forbidden autograd APIs", f"{n_calls} call sites scanned, none is backward/retain_grad/requires_grad_/register_hook", "", nontrivial=False)
+    from .C01 import single_pass_rule
+
+    for q in ("torchjd.autojac.backward.backward", "torchjd.autojac.mtl_backward.mtl_backward"):
+        single_pass_rule(ctx, index, "R0", index.get_function(q))
     ctx.floor(".grad write events observed", n_w, 10)
     _pipe.common_evidence(ctx, index)
     ctx.assumptions += ["torch.autograd.grad itself has no .grad side effect (graphs without retain_grad() tensors: documented limitation)",
